@@ -16,7 +16,6 @@ import (
 	"pgregory.net/rapid"
 
 	"verif/harness"
-	"verif/harness/rlmodel"
 )
 
 // TestTickingClock: concurrent callers against a clock that moves while they call. Every reading of the limiter's clock
@@ -37,7 +36,9 @@ func TestTickingClock(t *testing.T) {
 			c.Max = rapid.IntRange(1, 3).Draw(t, "max")
 		}
 		l := newLimiter(c, nil)
-		m := newModel(c)
+		// the responses of a round may be explained by several serial orders that leave the limiter in different states;
+		// the limiter is in one of them: all are kept
+		states := map[string]model{"": newModel(c)}
 		workers := rapid.IntRange(2, 5).Draw(t, "workers")
 		rounds := rapid.IntRange(30, 150).Draw(t, "rounds")
 		type tick struct {
@@ -140,9 +141,21 @@ func TestTickingClock(t *testing.T) {
 			if len(hist) > 40 {
 				hist = hist[len(hist)-40:]
 			}
-			if !linearizeTimed(m, reqs, times, 0) {
-				failure = fmt.Sprintf("round %d: the clock was read at %v (in this order); no order of the %d requests, applied at those instants, explains the responses %s (model state before the round: %s)", r, times, workers, describeGot(cur), m)
+			next := map[string]model{}
+			var before []string
+			for _, m := range states {
+				before = append(before, m.String())
+				linearizeTimed(m, reqs, times, 0, next)
 			}
+			if len(next) == 0 {
+				failure = fmt.Sprintf("round %d: the clock was read at %v (in this order); no order of the %d requests, applied at those instants, explains the responses %s (possible model states before the round: %v)", r, times, workers, describeGot(cur), before)
+			}
+			if len(next) > 256 {
+				stop.Store(true)
+				wg.Wait()
+				t.Skip("more than 256 candidate states")
+			}
+			states = next
 		}
 		stop.Store(true)
 		wg.Wait()
@@ -170,10 +183,12 @@ func describeGot(ops []op) string {
 	return s + "]"
 }
 
-// linearizeTimed: position pos of the serial order happens at times[pos].
-func linearizeTimed(m model, reqs []creq, times []int64, pos int) bool {
+// linearizeTimed: position pos of the serial order happens at times[pos]; every end state of an order that explains the
+// responses is added to out.
+func linearizeTimed(m model, reqs []creq, times []int64, pos int, out map[string]model) {
 	if pos == len(times) {
-		return true
+		out[m.String()] = m
+		return
 	}
 	tried := map[string]bool{}
 	for i := range reqs {
@@ -192,17 +207,7 @@ func linearizeTimed(m model, reqs []creq, times []int64, pos int) bool {
 			continue
 		}
 		reqs[i].done = true
-		if linearizeTimed(mc, reqs, times, pos+1) {
-			switch mm := m.(type) {
-			case *rlmodel.Smooth:
-				*mm = *(mc.(*rlmodel.Smooth))
-			case *rlmodel.Bursty:
-				*mm = *(mc.(*rlmodel.Bursty))
-			}
-			reqs[i].done = false
-			return true
-		}
+		linearizeTimed(mc, reqs, times, pos+1, out)
 		reqs[i].done = false
 	}
-	return false
 }
